@@ -533,8 +533,14 @@ func (cs *connState) handleRequest() bool {
 		return true
 	}
 
-	// Handle the message.
-	r := cs.handle(m)
+	// Handle the message. A Tflush that names its own tag has nothing to
+	// wait for: waiting for the tag to finish would be waiting for itself.
+	var r message
+	if f, ok := m.(*tflush); ok && f.OldTag == tag {
+		r = &rflush{}
+	} else {
+		r = cs.handle(m)
+	}
 
 	// Clear the tag before sending. That's because as soon as this
 	// hits the wire, the client can legally send another message
